@@ -58,7 +58,7 @@ def decide(ctx: Ctx, mod, a, import_error) -> int:
     prop = ctx.prop
     lean = None
     if not a.no_lean:
-        lean = core.lean_obligations(prop, getattr(mod, "EXTRA_LEAN_MODULES", None))
+        lean = core.lean_obligations(prop, getattr(mod, "EXTRA_LEAN_MODULES", None), recheck=ctx.thorough)
     violations: list[Violation] = []
     if mod is None:
         # the implementation cannot even be imported: that is what the search found
